@@ -336,7 +336,13 @@ class Parser:
                             labels.append(None)
                         else:
                             self.eat("case")
-                            labels.append(self.expr())
+                            if self.at("-") and self.peek(1) == ("num", "2147483648"):
+                                # `case -2147483648:` the literal is a long in C++, the label is converted to the
+                                # int type of the condition (value fits): INT_MIN
+                                self.i += 2
+                                labels.append(["int", -2147483648])
+                            else:
+                                labels.append(self.expr())
                         self.eat(":")
                     if not labels:
                         raise OutOfFragment("statement without a case label inside switch")
